@@ -1513,24 +1513,46 @@ namespace bloch::runtime {
         if (!cls)
             return;
         cls->staticInitStarted = true;
+        if (cls->staticInitialiserRun.size() < cls->staticFields.size())
+            cls->staticInitialiserRun.resize(cls->staticFields.size(), 0);
+        bool prevStatic = m_inStaticContext;
+        auto* prevClass = m_currentClassCtx;
+        // Every static field has its default value before the first initialiser of the class
+        // runs, and every initialiser runs exactly once, in declaration order: whether a field
+        // still holds "no value" says nothing about that (an earlier initialiser, or a
+        // constructor it runs, may read or write a later field).
         for (size_t i = 0; i < cls->staticFields.size(); ++i) {
-            auto& field = cls->staticFields[i];
-            auto& slot = cls->staticStorage[i];
-            if (slot.type != Value::Type::Void)
+            if (cls->staticStorage[i].type != Value::Type::Void)
                 continue;
-            bool prevStatic = m_inStaticContext;
-            auto* prevClass = m_currentClassCtx;
             m_inStaticContext = true;
             m_currentClassCtx = cls;
-            slot = defaultValueForField(field, cls->name);
-            if (field.hasInitializer && field.initializer) {
-                beginFrame();
-                Value init = eval(field.initializer);
-                endFrame();
-                cls->staticStorage[i] = asDeclared(std::move(init), field.type);
-            }
+            cls->staticStorage[i] = defaultValueForField(cls->staticFields[i], cls->name);
             m_inStaticContext = prevStatic;
             m_currentClassCtx = prevClass;
+        }
+        for (size_t i = 0; i < cls->staticFields.size(); ++i) {
+            auto& field = cls->staticFields[i];
+            if (cls->staticInitialiserRun[i])
+                continue;
+            cls->staticInitialiserRun[i] = 1;
+            if (field.hasInitializer && field.initializer) {
+                m_inStaticContext = true;
+                m_currentClassCtx = cls;
+                beginFrame();
+                Value init;
+                try {
+                    init = eval(field.initializer);
+                } catch (...) {
+                    endFrame();
+                    m_inStaticContext = prevStatic;
+                    m_currentClassCtx = prevClass;
+                    throw;
+                }
+                endFrame();
+                cls->staticStorage[i] = asDeclared(std::move(init), field.type);
+                m_inStaticContext = prevStatic;
+                m_currentClassCtx = prevClass;
+            }
         }
     }
 
